@@ -202,6 +202,17 @@ def run(ck, prog, tier):
                   'non-positive size (%s) must give the identity transform before any division '
                   'by it; got %r%s' % (desc, o.value, ' after dividing by a zero size' if divs
                                        else ''), fn.loc(), key='vb_scale::validity')
+            # ... whatever preserveAspectRatio says (a branch for "none" or "slice" taken before
+            # the size test must not skip it)
+            for par_text in ('none', 'defer none', 'xMaxYMax slice'):
+                hk2 = VbHooks(ar=0, signs=signs)
+                outs2 = interp(Str.lit(par_text), hk2)
+                bad2 = [o2 for o2 in outs2 if o2.kind != 'return' or o2.value != IDENT]
+                ck.ob('C11-D4-identity', '%s pAR=%r' % (desc, par_text), not bad2,
+                      'non-positive size (%s) with preserveAspectRatio=%r must give the identity '
+                      'transform; got %r' % (desc, par_text,
+                                             [(o2.kind, o2.value) for o2 in bad2][:2]),
+                      fn.loc(), key='vb_scale::validity')
         else:
             n_valid += 1
             ck.ob('C11-D4-identity', desc, o.value != IDENT,
